@@ -462,3 +462,97 @@ class PostprocessRecorder:
     def __exit__(self, *a):
         self._ui.postprocess_ir_model = self._orig
         return False
+
+
+def function_annotation_check(model, feeds_list: list[dict[str, np.ndarray]]) -> dict[str, Any]:
+    """C08 inside function bodies: every FunctionProto is executed as a stand-alone graph on the inputs of each
+    of its call sites in the main graph (observed at run time); the element types / static dims its value_info
+    declares are compared with what the body really produces for THAT call site."""
+    import onnx
+    from onnx import helper as oh
+
+    from harness import onnxutil as U
+
+    rec: dict[str, Any] = {"values": 0, "calls": 0, "problems": [], "unobserved": None}
+    fdefs = {(f.domain, f.name): f for f in model.functions}
+    calls = [n for n in model.graph.node if (n.domain, n.op_type) in fdefs]
+    if not calls or not feeds_list:
+        return rec
+    m = onnx.ModelProto()
+    m.CopyFrom(model)
+    existing = {o.name for o in m.graph.output}
+    known = {v.name: v for v in list(m.graph.value_info) + list(m.graph.input) + list(m.graph.output)}
+    inits = {i.name: i for i in m.graph.initializer}
+    want = []
+    for n in calls:
+        for name in n.input:
+            if name and name not in existing and name not in inits and name not in want:
+                want.append(name)
+    for name in want:
+        m.graph.output.append(known[name] if name in known else oh.make_empty_tensor_value_info(name))
+    try:
+        sess = U.ort_session(m)
+    except Exception as ex:  # noqa: BLE001
+        rec["unobserved"] = f"instrumented model does not load: {str(ex)[:140]}"
+        return rec
+    from onnx import numpy_helper as onh
+
+    for feeds in feeds_list[:1]:
+        try:
+            outs = dict(zip([o.name for o in sess.get_outputs()], sess.run(None, feeds)))
+        except Exception as ex:  # noqa: BLE001
+            rec["unobserved"] = f"instrumented model does not run: {str(ex)[:140]}"
+            continue
+        env = dict(feeds)
+        env.update(outs)
+        for k, t in inits.items():
+            env.setdefault(k, onh.to_array(t))
+        for n in calls:
+            f = fdefs[(n.domain, n.op_type)]
+            args = []
+            ok = True
+            for name in n.input:
+                if name == "":
+                    args.append(None)
+                elif name in env:
+                    args.append(np.asarray(env[name]))
+                else:
+                    ok = False
+            if not ok or len(args) != len(f.input):
+                continue
+            vinfo = {v.name: v for v in f.value_info if v.type.HasField("tensor_type") and v.type.tensor_type.elem_type != 0}
+            if not vinfo:
+                continue
+            produced = {o for nd in f.node for o in nd.output}
+            g_inputs = [oh.make_tensor_value_info(nm, oh.np_dtype_to_tensor_dtype(a.dtype), list(a.shape)) for nm, a in zip(f.input, args) if a is not None]
+            g_outputs = [oh.make_empty_tensor_value_info(nm) for nm in vinfo if nm in produced]
+            if not g_outputs:
+                continue
+            g = oh.make_graph(list(f.node), f"body_of_{f.name}", g_inputs, g_outputs)
+            fm = oh.make_model(g, opset_imports=list(f.opset_import) or list(model.opset_import), ir_version=model.ir_version, functions=[x for x in model.functions if x is not f])
+            for imp in model.opset_import:
+                if imp.domain not in {o.domain for o in fm.opset_import}:
+                    fm.opset_import.append(imp)
+            try:
+                got = U.ort_run(fm, {nm: a for nm, a in zip(f.input, args) if a is not None})
+            except Exception as ex:  # noqa: BLE001
+                rec["unobserved"] = f"body of {f.name} does not run stand-alone: {str(ex)[:120]}"
+                continue
+            rec["calls"] += 1
+            for vo, arr in zip(g_outputs, got):
+                v = vinfo[vo.name]
+                tt = v.type.tensor_type
+                rec["values"] += 1
+                wantdt = np.dtype(oh.tensor_dtype_to_np_dtype(tt.elem_type))
+                if wantdt != arr.dtype:
+                    rec["problems"].append(f"function {f.domain}::{f.name} as called by node '{n.name}': value '{vo.name}' declared {wantdt} but runtime produces {arr.dtype}")
+                    continue
+                if tt.HasField("shape"):
+                    dims = list(tt.shape.dim)
+                    if len(dims) != arr.ndim:
+                        rec["problems"].append(f"function {f.name} (call '{n.name}'): value '{vo.name}' declared rank {len(dims)} but runtime rank {arr.ndim}")
+                        continue
+                    for a_, (d, size) in enumerate(zip(dims, arr.shape)):
+                        if d.HasField("dim_value") and d.dim_value != size:
+                            rec["problems"].append(f"function {f.name} (call '{n.name}'): value '{vo.name}' axis {a_}: declared {d.dim_value} but runtime {size}")
+    return rec
